@@ -888,7 +888,9 @@ func (p *protocolV2) MPUB(client *clientV2, params [][]byte) ([]byte, error) {
 			fmt.Sprintf("MPUB body too big %d > %d", bodyLen, p.nsqd.getOpts().MaxBodySize))
 	}
 
-	messages, err := readMPUB(client.Reader, client.lenSlice, topic,
+	// the batch must fit in the body size the client declared (and that was
+	// just range-checked against max-body-size): never read beyond it
+	messages, err := readMPUB(io.LimitReader(client.Reader, int64(bodyLen)), client.lenSlice, topic,
 		p.nsqd.getOpts().MaxMsgSize, p.nsqd.getOpts().MaxBodySize)
 	if err != nil {
 		return nil, err
